@@ -62,6 +62,7 @@ type faultSource struct {
 	sticky   bool
 	withData bool // the failing call also returns some bytes
 	injected bool
+	chunk    int // > 0: short reads of at most chunk bytes
 }
 
 func (s *faultSource) Read(p []byte) (int, error) {
@@ -79,6 +80,9 @@ func (s *faultSource) Read(p []byte) (int, error) {
 	if s.pos >= len(s.data) {
 		return 0, io.EOF
 	}
+	if s.chunk > 0 && len(p) > s.chunk {
+		p = p[:s.chunk]
+	}
 	n := copy(p, s.data[s.pos:])
 	s.pos += n
 	return n, nil
@@ -92,6 +96,9 @@ type fiCase struct {
 	Mode   string `json:"mode"` // transient | retry | sticky | partial | withdata
 	Jobs   uint   `json:"jobs"`
 	WriteN int    `json:"write_chunk"`
+	From   int    `json:"from,omitempty"`      // source side: block range given to the Reader (0 = none)
+	To     int    `json:"to,omitempty"`        //
+	SrcN   int    `json:"src_chunk,omitempty"` // source side: short reads of at most this many bytes (0 = as asked)
 }
 
 type fiObs struct {
@@ -213,14 +220,39 @@ func runSourceCase(c *fiCase) (o fiObs) {
 	if err != nil {
 		return
 	}
-	src := &faultSource{data: stream, failAt: c.K, sticky: c.Mode == "sticky", withData: c.Mode == "withdata"}
+	src := &faultSource{data: stream, failAt: c.K, sticky: c.Mode == "sticky", withData: c.Mode == "withdata", chunk: c.SrcN}
+	if c.From > 0 || c.To > 0 {
+		// a block range: the expected output is the slice of the original covered by blocks from..to-1
+		B := int(c.R.Cfg.BlockSize)
+		lo, hi := 0, len(data)
+		if c.From > 0 {
+			lo = min((c.From-1)*B, len(data))
+		}
+		if c.To > 0 {
+			hi = max(lo, min((c.To-1)*B, len(data)))
+		}
+		data = data[lo:hi]
+	}
 	var hc *kz.Cfg
 	if c.R.Cfg.Headerless {
 		cf := c.R.Cfg
 		hc = &cf
 	}
 	var r *kio.Reader
-	if p := catch(func() { r, err = kz.NewReader(src, c.Jobs, hc) }); p != nil || err != nil {
+	if p := catch(func() {
+		if c.From > 0 || c.To > 0 {
+			ctx := map[string]any{"jobs": c.Jobs}
+			if c.From > 0 {
+				ctx["from"] = c.From
+			}
+			if c.To > 0 {
+				ctx["to"] = c.To
+			}
+			r, err = kio.NewReaderWithCtx(src, ctx)
+		} else {
+			r, err = kz.NewReader(src, c.Jobs, hc)
+		}
+	}); p != nil || err != nil {
 		return fiObs{kind: "harness", detail: fmt.Sprint(p, err)}
 	}
 	var out []byte
@@ -284,7 +316,7 @@ func runSourceCase(c *fiCase) (o fiObs) {
 
 func c08(run *core.Run, replay string) {
 	run.SetRule("fault enumeration: for every recipe x job count the fault-free run counts the calls N of the sink's Write (and Close) / the source's Read; then the fault is injected at EVERY k in 1..N in modes " +
-		"transient, transient + caller retries Close, sticky, sticky + client keeps writing after the error (small Write calls), (sink) partial write, (source) error returned together with bytes; the client stops writing at the first error and closes; " +
+		"transient, transient + caller retries Close, sticky, sticky + client keeps writing after the error (small Write calls), (sink) partial write, (source) error returned together with bytes, (source) the same with short reads and with block ranges given to the Reader (faults while skipped blocks are consumed); the client stops writing at the first error and closes; " +
 		"oracle: an injected fault must surface as a non-nil error of some call, no panic may escape, a Close that returns nil implies the sink decodes to exactly the accepted bytes, " +
 		"bytes returned by Read are always a prefix of the original and a clean io.EOF implies completeness; non-trivial = the fault was actually injected; distinct = (recipe, side, k, mode, jobs)")
 	check := func(c *fiCase) fiObs {
@@ -304,7 +336,10 @@ func c08(run *core.Run, replay string) {
 		}
 		run.Eval(1)
 		if o.injected {
-			run.Nontrivial(fmt.Sprintf("%s|%s|%d|%s|%d|%d", c.R.Name, c.Side, c.K, c.Mode, c.Jobs, c.WriteN))
+			run.Nontrivial(fmt.Sprintf("%s|%s|%d|%s|%d|%d|%d-%d|%d", c.R.Name, c.Side, c.K, c.Mode, c.Jobs, c.WriteN, c.From, c.To, c.SrcN))
+			if c.From > 0 || c.To > 0 {
+				run.Count("faults_injected_source_with_block_range", 1)
+			}
 			run.Count("faults_injected_"+c.Side, 1)
 			if o.masked {
 				run.Count("source_faults_after_complete_delivery", 1)
@@ -393,6 +428,31 @@ func c08(run *core.Run, replay string) {
 					}
 				}
 				run.Seen("call_counts", fmt.Sprintf("%s j=%d: sink writes=%d source reads=%d", recs[ri].Name, j, nw, so.calls))
+				// the same enumeration with short reads (the buffer is refilled at other points of the stream) and with block ranges
+				// (refills inside skipped blocks, ranges ending before / beyond the last block)
+				B := int(recs[ri].Cfg.BlockSize)
+				nb := (recs[ri].Size + B - 1) / B
+				if recs[ri].Cfg.Headerless {
+					continue
+				}
+				variants := [][3]int{{0, 0, 70001}, {2, 0, 0}, {max(2, nb/2), nb, 0}, {nb, nb + 2, 0}, {0, max(2, nb-1), 0}, {3, max(4, nb-1), 50000}}
+				for vi, v := range variants {
+					if !run.Thorough() && (vi+ri+int(j))%2 == 1 && vi > 1 {
+						continue
+					}
+					vb := &fiCase{R: recs[ri], Side: "source", K: 0, Mode: "transient", Jobs: j, From: v[0], To: v[1], SrcN: v[2]}
+					vo := runSourceCase(vb)
+					if vo.kind != "" {
+						run.Count("recipe_failed_fault_free", 1)
+						run.Violate("C08 "+vo.kind+" side=source mode=none", fmt.Sprintf("[%s from=%d to=%d chunk=%d] %s", recs[ri].Name, v[0], v[1], v[2], vo.detail), vb)
+						continue
+					}
+					for k := 1; k <= vo.calls; k++ {
+						for _, m := range []string{"transient", "sticky", "withdata"} {
+							cases = append(cases, &fiCase{R: recs[ri], Side: "source", K: k, Mode: m, Jobs: j, From: v[0], To: v[1], SrcN: v[2]})
+						}
+					}
+				}
 			}
 		}
 	}
